@@ -51,13 +51,42 @@ def with_options(draw, base):
     return case
 
 
+def u_fill_as_data_cards(case):
+    """Rewrite the U= and FILL= cell parameters as the data cards U and FILL
+    (one entry per cell, in the order of the cell cards; 0 = none), the other
+    form MCNP accepts for cell parameters.  Only for decks whose fills have no
+    transformation and no array."""
+    deck = case['deck']
+    cells = deck['cells']
+    if any(c.get('lat') or c.get('like') is not None for c in cells):
+        return case
+    if any(c.get('fill') and (c['fill'].get('tr') is not None
+                              or c['fill'].get('univs') is not None)
+           for c in cells):
+        return case
+    if not any(c.get('u') for c in cells):
+        return case
+    for c in cells:
+        c['params_in_data'] = True
+    deck['extra_data'] = list(deck.get('extra_data') or []) + [
+        'u ' + ' '.join(str(c.get('u') or 0) for c in cells),
+        'fill ' + ' '.join(str(c['fill']['u']) if c.get('fill') else '0'
+                           for c in cells)]
+    case['labels'] = sorted(set(case['labels']) | {'u-fill-data-cards'})
+    return case
+
+
 def strategy(tier):
     from hypothesis import strategies as st
     hier = gen_hier.hier_case(tier, {'lattice': False, 'surface_tr': True})
     # one universe placed in several containers under related
     # transformations (equal, turned, mirrored): every copy is located
     # through its own frame
-    return with_options(st.one_of(hier, hier, hier, hier, hier, hier,
+    plain = gen_hier.hier_case(tier, {'lattice': False, 'no_fill_tr': True})
+    return with_options(st.one_of(hier, hier, hier, hier, hier, hier, hier,
+                                  hier, hier, hier, hier, hier, hier, hier,
+                                  plain.map(u_fill_as_data_cards),
+                                  gen_hier.twin_fill_case(tier, mirrors=True),
                                   gen_hier.twin_fill_case(tier, mirrors=True),
                                   gen_hier.twin_fill_case(tier, mirrors=True),
                                   gen_hier.neg_universe_case(tier)))
@@ -93,6 +122,14 @@ def run_semantic(case, prefix, check_prov=True, check_comp=False, argv=()):
                 and not ((loc.count == 1) & ~loc.dead & ~loc.undec).any():
             from ..runner import skip
             return None, skip('degenerate:nothing-to-convert', labels), None
+        if 'u-fill-data-cards' in labels and \
+                res.exc_type == 'NotImplementedError' and \
+                'data cards are not supported' in (res.exc_msg or ''):
+            # the data-card form of U / FILL is refused with an error that
+            # names it: unsupported input stops the run (what must not happen
+            # is a conversion that silently ignores the cards)
+            from ..runner import skip
+            return None, skip('refused:cell-parameter-data-cards', labels), None
         return None, violation('crash:%s' % res.crash_key(),
                                {'error': res.brief(), 'frames': res.frames,
                                 'deck': text, 'argv': mr.argv_of(deck, argv)},
